@@ -303,6 +303,11 @@ impl Recorder
             .push((part.to_string(), sig.to_string(), msg.to_string(), replay));
     }
 
+    pub fn has_violation_sig(&self, part: &str, sig: &str) -> bool
+    {
+        self.inner.lock().unwrap().violations.iter().any(|v| v.0 == part && v.1 == sig)
+    }
+
     pub fn has_violation(&self) -> bool
     {
         !self.inner.lock().unwrap().violations.is_empty()
@@ -491,6 +496,21 @@ pub fn pbt<C>(
 ) where
     C: std::fmt::Debug + Clone + Serialize + DeserializeOwned + Send + 'static,
 {
+    pbt_opts(env, rec, part, cases, 1500, strategy, check)
+}
+
+/// As `pbt`, with an explicit bound on shrink iterations (expensive cases).
+pub fn pbt_opts<C>(
+    env: &Env,
+    rec: &Recorder,
+    part: &str,
+    cases: u64,
+    shrink_iters: u32,
+    strategy: &(dyn Fn() -> BoxedStrategy<C> + Sync),
+    check: &(dyn Fn(&C) -> CaseOutcome + Sync),
+) where
+    C: std::fmt::Debug + Clone + Serialize + DeserializeOwned + Send + 'static,
+{
     // Replay mode: run exactly the saved case of this part.
     if let Some((rpart, rcase)) = &env.replay
     {
@@ -548,7 +568,7 @@ pub fn pbt<C>(
                 let config = Config {
                     cases: n as u32,
                     failure_persistence: None,
-                    max_shrink_iters: 4000,
+                    max_shrink_iters: shrink_iters,
                     max_shrink_time: 0,
                     max_local_rejects: 1_000_000,
                     max_global_rejects: 1_000_000,
@@ -637,6 +657,10 @@ pub fn pbt<C>(
                         {
                             unknown
                         };
+                        if rec.has_violation_sig(part, &devs[0].signature)
+                        {
+                            return;
+                        }
                         let path = save_replay(env, part, &minimal, &devs);
                         let msg = devs
                             .iter()
